@@ -21,7 +21,9 @@ var libModels = map[string]*libModel{}
 const builderHeap = "H.strings.Builder.out"
 
 func builderMods(x *Exec, args []Val, known []bool, m *Mods) {
-	if len(args) > 0 && known[0] && args[0].T != "" {
+	if len(args) > 0 && known[0] && args[0].S == "@fresh" {
+		m.heapMod(builderHeap, "Out").Alloc = true
+	} else if len(args) > 0 && known[0] && args[0].T != "" {
 		m.addBase(builderHeap, "Out", args[0].T)
 	} else {
 		m.heapMod(builderHeap, "Out").Any = true
